@@ -15,6 +15,8 @@
 package ggql
 
 import (
+	"fmt"
+	"math"
 	"strconv"
 )
 
@@ -60,6 +62,15 @@ func (*float64Scalar) CoerceIn(v interface{}) (interface{}, error) {
 	return v, err
 }
 
+// finiteFloat64 fails for NaN and the infinities, they can not be represented
+// in a response.
+func finiteFloat64(f float64) (interface{}, error) {
+	if -math.MaxFloat64 <= f && f <= math.MaxFloat64 {
+		return f, nil
+	}
+	return nil, fmt.Errorf("%w %g into a Float64, not finite", ErrCoerce, f)
+}
+
 // CoerceOut coerces a result value into a type for the scalar.
 func (t *float64Scalar) CoerceOut(v interface{}) (interface{}, error) {
 	var err error
@@ -67,9 +78,9 @@ func (t *float64Scalar) CoerceOut(v interface{}) (interface{}, error) {
 	case nil:
 		// remains nil
 	case float32:
-		v = float64(tv)
+		v, err = finiteFloat64(float64(tv))
 	case float64:
-		// ok as is
+		v, err = finiteFloat64(tv)
 	case int:
 		v = float64(tv)
 	case int8:
@@ -93,7 +104,9 @@ func (t *float64Scalar) CoerceOut(v interface{}) (interface{}, error) {
 	case string:
 		var f float64
 		if f, err = strconv.ParseFloat(tv, 64); err == nil {
-			v = f
+			v, err = finiteFloat64(f)
+		} else {
+			v = nil
 		}
 	default:
 		v = nil
